@@ -924,6 +924,54 @@ func (c *Ctx) plainDocument() {
 			continue
 		}
 		nSelf++
+		// the document is handed back as it is only after the scan of its entries ran to the end, every entry met on the
+		// way having been found to be neither the marker nor a lazy CTE
+		exhausted := false
+		iterations := map[string]*Term{} // next term -> itself, for every entry the path looked at
+		for _, k := range p.Order {
+			kt := p.KeyTerm[k]
+			if kt == nil || kt.Op != "ext" || kt.Name != "0" || len(kt.Args) != 1 || kt.Args[0].Op != "next" {
+				continue
+			}
+			rg := kt.Args[0].Args[0]
+			if rg.Op != "range" || !(rg.Args[0].Op == "param" && rg.Args[0].Name == doc) {
+				continue
+			}
+			if v, assumed := p.Assumed(k); assumed && !v {
+				exhausted = true
+			} else if assumed && v {
+				iterations[kt.Args[0].String()] = kt.Args[0]
+			}
+		}
+		if !exhausted {
+			why = append(why, "the document itself is returned on a path that has not looked at all of its entries: a lazy CTE (or the marker) it holds is handed out")
+		}
+		for nk := range iterations {
+			notMarker, notThunk := false, false
+			for k, v := range p.Asg {
+				kt := p.KeyTerm[k]
+				if kt == nil || isTrueC(v) {
+					continue
+				}
+				if kt.Op == "bin" && kt.Name == "==" && len(kt.Args) == 2 {
+					for j := 0; j < 2; j++ {
+						if x := kt.Args[j]; x.Op == "ext" && x.Name == "1" && x.Args[0].String() == nk && kt.Args[1-j].String() == `c:"<-"` {
+							notMarker = true
+						}
+					}
+				}
+				if kt.Op == "ext" && kt.Name == "1" && kt.Args[0].Op == "assertok" {
+					if x := kt.Args[0].Args[0]; x.Op == "ext" && x.Name == "2" && x.Args[0].String() == nk {
+						if ta, isTA := kt.Args[0].V.(*ssa.TypeAssert); isTA && isThunkType(ta.AssertedType) {
+							notThunk = true
+						}
+					}
+				}
+			}
+			if !notMarker || !notThunk {
+				why = append(why, fmt.Sprintf("the document itself is returned although an entry was not tested (marker tested=%v, lazy CTE tested=%v)", notMarker, notThunk))
+			}
+		}
 		for k, v := range p.Asg {
 			kt := p.KeyTerm[k]
 			if kt == nil || !isTrueC(v) {
